@@ -179,6 +179,37 @@ pub(super) fn extract_param_rename_attr(
     Ok(rename_result.unwrap_or(None))
 }
 
+/// The parameter rename given with `#[zlink(rename = "...")]`, if any, leaving the attributes in place.
+///
+/// The chain variants of a method are generated from the same signature as the method itself;
+/// they look at the attributes without consuming them.
+pub(super) fn peek_param_rename_attr(attrs: &[Attribute]) -> Option<String> {
+    let mut attrs = attrs.to_vec();
+    extract_param_rename_attr(&mut attrs).ok().flatten()
+}
+
+/// The serde attributes of a field of the per-call parameters struct: the wire name if the
+/// parameter is renamed, and omission of `None` for optional parameters.
+pub(super) fn param_serde_attrs(
+    serialized_name: &Option<String>,
+    is_optional: bool,
+) -> proc_macro2::TokenStream {
+    use quote::quote;
+
+    match (serialized_name, is_optional) {
+        (Some(renamed), true) => quote! {
+            #[serde(rename = #renamed, skip_serializing_if = "Option::is_none")]
+        },
+        (Some(renamed), false) => quote! {
+            #[serde(rename = #renamed)]
+        },
+        (None, true) => quote! {
+            #[serde(skip_serializing_if = "Option::is_none")]
+        },
+        (None, false) => quote! {},
+    }
+}
+
 /// Build a combined where clause from existing constraints, new constraint, and generic bounds.
 pub(super) fn build_combined_where_clause(
     existing: Option<syn::WhereClause>,
